@@ -30,6 +30,24 @@ def check_validate(ctx):
     return a and b and c
 
 
+def default_identifier_range(ctx):
+    """default identifiers are 1..=max_signers (inclusive range: no overflow at 65535, none missing)"""
+    P = ctx.prog
+    f = ctx.anchor(CORE + "keys::default_identifiers")
+    if not f:
+        return
+    t = FnView.get(P, f).cx.local(0)
+    good = is_call(t, name="collect") and is_call(t[2][0], name="map") and is_call(t[2][0][2][0], name="new") and \
+        "RangeInclusive" in t[2][0][2][0][1] and t[2][0][2][0][2] == (("const", "u16", 1), ("arg", 1))
+    if good:
+        cl = t[2][0][2][1]
+        cf = P.fns.get(cl[1]) if cl[0] == "closure" else None
+        ct = TermCx(P, cf).local(0) if cf else None
+        good = ct is not None and is_call(ct, name="expect") and is_call(ct[2][0], name="try_from") and ct[2][0][2][0] == ("arg", 2)
+    ctx.check(good and {k for k in adaptor_inventory(f) if k not in LOOKUPS} == set(), "PROV", f.key, "identifiers==1..=max_signers",
+              "default identifiers must be Identifier::try_from(i) for every i in the inclusive range 1..=max_signers: %s" % fmt(t)[:160], f.loc)
+
+
 def run(ctx):
     ctx.decided = ("parameter refusals (t<2, n<2, t>n, wrong number of / duplicate identifiers) gate share production; "
                    "a KeyPackage is built from a SecretShare only behind the success edge of its verification, with "
@@ -191,6 +209,10 @@ def run(ctx):
                   "the fold step of evaluate_vss must be branch-free, add every coefficient commitment and depend on "
                   "the identifier", ev.loc)
     arithmetic_kernels(ctx)
+    # any t shares reconstruct: the count refusal of reconstruct is exactly `len < min` (not stricter)
+    from .c03 import reconstruct_refusals
+    reconstruct_refusals(ctx)
+    default_identifier_range(ctx)
     ep = ctx.anchor(CORE + "keys::evaluate_polynomial")
     if ep:
         reductions(ctx, ep.key, adaptors={"skip": 1, "rev": 1}, min_loops=1)
